@@ -410,6 +410,9 @@ class Exec:
             return StrConst(c)
         if c.startswith('fnitem '):
             return FnItem(c[7:].strip())
+        m = re.match(r'ZeroSized: (\{closure@[^}]*\})$', c)
+        if m:
+            return Closure(m.group(1), [])       # a closure that captures nothing is a zero-sized constant
         m = re.match(r'(?:.*::)?([A-Z][A-Z0-9_]*)$', c)
         if m:
             v = self.source_const(m.group(1))
